@@ -161,6 +161,10 @@ def validate(ctx, pid, trace, gen):
         if sig.startswith(pid + "|"):
             tx = rows[idx - 1] if idx - 1 < len(rows) else None
             ctx.violation(sig, {"tx_index": idx, "generator": gen, "expected_vs_got": detail}, replay_src={"tx": tx, "seed": ctx.seed, "generator": gen})
+    nextra = res["output"].count('"EXTRA"')
+    if nextra:
+        ctx.extra["beyond_property_observations"] = ctx.extra.get("beyond_property_observations", 0) + nextra
+        C.log("EXTRA %s: %d transaction(s) break the MetricsHook protocol modelled in WireFrame.tla (not part of the listed properties)" % (pid, nextra))
     ndrift = res["output"].count('"DRIFT"')
     if ndrift:
         ctx.drift.append({"generator": gen, "transactions_disagreeing_with_WireFrame": ndrift})
